@@ -1,10 +1,13 @@
 (* C01 - every test run is bracketed and yields exactly one outcome; an exception outside
    Exception is reported as an error and propagates after stopTest.
    Only statements; every proof is `exact <lemma of Proof/C01.v>`. *)
-From TT Require Import Lib.Base Gen.Handlers Model.Run Spec.Run Spec.C01 Corr.C01 Proof.RunCore Proof.C01.
+From TT Require Import Lib.Base Gen.Handlers Model.Run Spec.Run Spec.C01 Corr.C01 Proof.RunCore
+  Proof.RunExtra Proof.RunTable Proof.RunVerdict Proof.C01.
 
-(* The model meets the whole statement for every finite program (any nesting of cleanups, any
-   exceptions, decorators, fixtures ...) and every result flavour. *)
+(* The model meets the whole statement for every finite program (any number of statements per
+   stage, cleanups registering cleanups to any depth, any exception values incl. nested and empty
+   MultipleExceptions and user subclasses, decorators, fixtures, handlers inserted before or
+   during the run for Exception-derived classes) and every result flavour. *)
 Theorem C01_holds : forall i : input, wf i = true -> spec_okb i (model i) = true.
 Proof. exact model_meets_spec. Qed.
 Print Assumptions C01_holds.
@@ -14,25 +17,36 @@ Theorem C01_statement : forall i o, spec_okb i o = true -> Spec i o.
 Proof. exact spec_okb_sound. Qed.
 Print Assumptions C01_statement.
 
+Theorem C01_Spec_holds : forall i : input, wf i = true -> Spec i (model i).
+Proof. exact model_meets_Spec. Qed.
+Print Assumptions C01_Spec_holds.
+
 (* the correspondence compares observations exactly *)
 Theorem C01_obs_eqb : forall a b, obs_eqb a b = true <-> a = b.
 Proof. exact obs_eqb_spec. Qed.
 Print Assumptions C01_obs_eqb.
 
-(* C01_bracket: the result receives startTest, one outcome, stopTest and nothing else (handler
-   calls aside); the fuel supplied always suffices; every body that should run did; no cleanup is left *)
+(* C01_bracket: for EVERY program (no well-formedness needed) the result receives startTest, one
+   outcome, stopTest and nothing else (addOnException handler calls aside); the fuel supplied to
+   the cleanup loop always suffices; every body that should run did (tearDown iff setUp returned,
+   every cleanup, in the order of Spec.Run.expected_log); no cleanup is left *)
 Theorem C01_bracket : forall p a0,
-  exists s o d, run p a0 = (s, snd (verdict p false), false)
-                /\ fst (verdict p false) = Some o
+  exists s o d prop, run p a0 = (s, prop, false)
                 /\ calls (tr s) = [TStart; TOut o d; TStop]
                 /\ map shape (log s) = expected_log p /\ stack s = [].
 Proof. exact run_bracket. Qed.
 Print Assumptions C01_bracket.
 
+(* ... and every flavour's result sees exactly that bracket *)
+Theorem C01_bracket_delivered : forall i,
+  exists o, o_events (model i) = if has_stop (i_flavour i) then [Start; Out o; Stop] else [Start; Out o].
+Proof. exact bracket_delivered. Qed.
+Print Assumptions C01_bracket_delivered.
+
 (* C01_base_reported: the first exception not derived from Exception is reported as the error,
    all later stages and cleanups still run, and it propagates *)
 Theorem C01_base_reported : forall p a0 e,
-  forallb (fun co => subclass (fst co) CException) (p_handlers p) = true ->
+  handlers_within_Exception p = true ->
   find (fun e => negb (derives_from_Exception e)) (raised p) = Some e ->
   exists s d, run p a0 = (s, Some e, false)
               /\ calls (tr s) = [TStart; TOut OErr d; TStop]
@@ -40,8 +54,18 @@ Theorem C01_base_reported : forall p a0 e,
 Proof. exact base_reported. Qed.
 Print Assumptions C01_base_reported.
 
+(* what comes out of run() is the FIRST exception raised that is outside Exception *)
+Theorem C01_first_base_propagates : forall p a0 s e,
+  handlers_within_Exception p = true ->
+  run p a0 = (s, Some e, false) ->
+  exists before after, raised p = before ++ e :: after
+                       /\ derives_from_Exception e = false
+                       /\ forallb derives_from_Exception before = true.
+Proof. exact first_base_propagates. Qed.
+Print Assumptions C01_first_base_propagates.
+
 Theorem C01_returns_otherwise : forall p a0,
-  forallb (fun co => subclass (fst co) CException) (p_handlers p) = true ->
+  handlers_within_Exception p = true ->
   (forall e, In e (raised p) -> derives_from_Exception e = true) ->
   exists s, run p a0 = (s, None, false).
 Proof. exact returns_otherwise. Qed.
@@ -55,6 +79,11 @@ Theorem C01_stop_before_raise : forall p a0,
 Proof. exact stop_delivered. Qed.
 Print Assumptions C01_stop_before_raise.
 
+(* an unpacked MultipleExceptions is never empty: raising one always leaves something to report (F3) *)
+Theorem C01_flatten_nonempty : forall e, flatten e <> [].
+Proof. exact flatten_nonempty. Qed.
+Print Assumptions C01_flatten_nonempty.
+
 (* the facts about TestCase.exception_handlers of the tree under test that the proofs use
    (re-checked against the regenerated table on every run) *)
 Theorem C01_table :
@@ -63,16 +92,15 @@ Theorem C01_table :
   /\ forallb (fun h => subclass (h_cls h) CException) generated_handlers = true
   /\ match rev generated_handlers with h :: _ => cls_eqb (h_cls h) CException | [] => false end = true
   /\ (run_passes_table = true /\ length generated_handlers = length exception_handlers).
-Proof. exact (conj table_last_resort (conj table_outcomes (conj table_within_Exception
-             (conj table_catch_all_last table_complete)))). Qed.
+Proof. exact table_facts. Qed.
 Print Assumptions C01_table.
 
 (* non-vacuity: KeyboardInterrupt in the test, an ordinary error in a cleanup registered by a
-   cleanup, an empty MultipleExceptions in tearDown *)
+   cleanup, an empty MultipleExceptions in tearDown, a handler inserted while the test runs *)
 Example C01_example :
   let p := {| p_skip := None; p_xfail := false;
               p_setup := (1, [ACleanup 10 [ACleanup 11 [ARaise (Exc CValueError None)]]]); p_up_setup := true;
-              p_body := (2, [ARaise (Exc CKbd None)]);
+              p_body := (2, [AInsertHandler CValueError OSkip; ARaise (Exc CKbd None)]);
               p_teardown := (3, [ARaise (Multi [])]); p_up_teardown := true; p_handlers := [] |} in
   wf {| i_prog := p; i_flavour := F26 |} = true
   /\ model {| i_prog := p; i_flavour := F26 |} = {| o_events := [Start; Out OErr; Stop]; o_raised := RKbd |}
